@@ -37,6 +37,7 @@ type E7Spec struct {
 	NoExit        []NoExitSpec       `json:"no_exit"`
 	MethodKeyed   []FuncRuleSpec     `json:"method_keyed_maps"`
 	DottedSuffix  []FuncRuleSpec     `json:"dotted_suffix"`
+	EdgeClosure   []EdgeClosureSpec  `json:"edge_closure"`
 }
 
 type FuncRuleSpec struct {
@@ -138,6 +139,9 @@ func runE7(p *Program, sp *Spec, c *Collector) {
 	}
 	for _, ds := range t.DottedSuffix {
 		runDottedSuffix(p, c, ds)
+	}
+	for _, ec := range t.EdgeClosure {
+		runEdgeClosure(p, c, ec)
 	}
 	for _, n := range t.NoExit {
 		runNoExit(p, sp, c, n)
@@ -2123,4 +2127,129 @@ func runDottedSuffix(p *Program, c *Collector, a FuncRuleSpec) {
 	if n == 0 {
 		c.Ob(a.Props, "E7.dotted-suffix", "dottedsuffix:"+strings.Join(a.Funcs, ","), Undecided, a.What+": no suffix lookup found (anchor lost)", "", false)
 	}
+}
+
+
+// ---------------------------------------------------------------------------------------------
+// edge closure: a graph builder that collects relations whose targets come from the input (implemented interfaces, superclass,
+// field and call types) must, before it returns, drop every relation whose target is not one of the graph's nodes — otherwise
+// the graph has edges to things that are not nodes (types outside the project, the excluded entry class).
+
+type EdgeClosureSpec struct {
+	Props     []string `json:"props"`
+	Func      string   `json:"func"`
+	Relations string   `json:"relations"` // field holding the relation map
+	Nodes     string   `json:"nodes"`     // field holding the node map
+	Target    string   `json:"target"`    // field of a relation naming its target
+	What      string   `json:"what"`
+}
+
+func runEdgeClosure(p *Program, c *Collector, ec EdgeClosureSpec) {
+	fn := p.Func(ec.Func)
+	if fn == nil {
+		c.Anchor(ec.Props, "E7: edge closure: %s does not resolve", ec.Func)
+		return
+	}
+	key := "edgeclosure:" + ec.Func
+	fieldName := func(v ssa.Value) string {
+		// value loaded from x.F
+		if u, ok := v.(*ssa.UnOp); ok && u.Op == token.MUL {
+			if fa, ok := u.X.(*ssa.FieldAddr); ok {
+				n, _ := fieldOf(fa.X.Type(), fa.Field)
+				return n
+			}
+		}
+		if f, ok := v.(*ssa.Field); ok {
+			n, _ := fieldOf(f.X.Type(), f.Field)
+			return n
+		}
+		return ""
+	}
+	var filter *ssa.BasicBlock // header of the filtering loop
+	for _, loop := range naturalLoops(fn) {
+		h := loopHeader(loop)
+		rangesRel, deletes, testsNode := false, false, false
+		for b := range loop {
+			for _, in := range b.Instrs {
+				switch x := in.(type) {
+				case *ssa.Next:
+					if r, ok := x.Iter.(*ssa.Range); ok && fieldName(r.X) == ec.Relations {
+						rangesRel = true
+					}
+				case *ssa.Call:
+					if bi, ok := x.Call.Value.(*ssa.Builtin); ok && bi.Name() == "delete" && len(x.Call.Args) == 2 && fieldName(x.Call.Args[0]) == ec.Relations {
+						deletes = true
+					}
+				case *ssa.Lookup:
+					if fieldName(x.X) == ec.Nodes {
+						// the key is the target field of the ranged relation
+						k := x.Index
+						if u, ok := k.(*ssa.UnOp); ok && u.Op == token.MUL {
+							if fa, ok := u.X.(*ssa.FieldAddr); ok {
+								if n, _ := fieldOf(fa.X.Type(), fa.Field); n == ec.Target {
+									testsNode = true
+								}
+							}
+						}
+						if f, ok := k.(*ssa.Field); ok {
+							if n, _ := fieldOf(f.X.Type(), f.Field); n == ec.Target {
+								testsNode = true
+							}
+						}
+					}
+				}
+			}
+		}
+		// the Range instruction sits just before the header
+		if !rangesRel {
+			for _, pred := range h.Preds {
+				for _, in := range pred.Instrs {
+					if r, ok := in.(*ssa.Range); ok && fieldName(r.X) == ec.Relations {
+						rangesRel = true
+					}
+				}
+			}
+		}
+		if rangesRel && deletes && testsNode {
+			filter = h
+		}
+	}
+	if filter == nil {
+		c.Ob(ec.Props, "E7.edge-closure", key, Violated, ec.What+": "+shortFn(ec.Func)+" returns the relations it collected without dropping those whose "+ec.Target+" is not a key of "+ec.Nodes+": the graph can contain edges to things that are not its nodes (types outside the project, the excluded entry class)", p.FuncPos(fn), false)
+		return
+	}
+	// every return is reached through the filter, and nothing is added to the relations afterwards
+	for _, b := range fn.Blocks {
+		if len(b.Instrs) == 0 {
+			continue
+		}
+		if _, isRet := b.Instrs[len(b.Instrs)-1].(*ssa.Return); isRet && !filter.Dominates(b) {
+			c.Ob(ec.Props, "E7.edge-closure", key, Violated, ec.What+": a return is reached without passing the loop that drops dangling relations", p.InstrPos(b.Instrs[len(b.Instrs)-1]), false)
+			return
+		}
+		if filter.Dominates(b) && b != filter && !naturalLoopOf(fn, filter)[b] {
+			for _, in := range b.Instrs {
+				if mu, ok := in.(*ssa.MapUpdate); ok && fieldName(mu.Map) == ec.Relations {
+					c.Ob(ec.Props, "E7.edge-closure", key, Violated, ec.What+": a relation is added after the dangling ones were dropped", p.InstrPos(mu), false)
+					return
+				}
+				if call, ok := in.(*ssa.Call); ok {
+					if cal := call.Call.StaticCallee(); cal != nil && cal.Pkg != nil && p.Own[cal.Pkg.Pkg] {
+						c.Ob(ec.Props, "E7.edge-closure", key, Violated, ec.What+": "+shortFn(p.FuncKey(cal))+" runs after the dangling relations were dropped and may add new ones", p.InstrPos(call), false)
+						return
+					}
+				}
+			}
+		}
+	}
+	c.Ob(ec.Props, "E7.edge-closure", key, Discharged, "before every return, relations whose "+ec.Target+" is not a node are deleted, and nothing is added afterwards", p.Pos(filter.Instrs[0].Pos()), true)
+}
+
+func naturalLoopOf(fn *ssa.Function, h *ssa.BasicBlock) map[*ssa.BasicBlock]bool {
+	for _, l := range naturalLoops(fn) {
+		if loopHeader(l) == h {
+			return l
+		}
+	}
+	return map[*ssa.BasicBlock]bool{}
 }
